@@ -99,6 +99,17 @@ def commitment_cases(run, h, pts, batch, rng, grp, n):
         sim = {"C": cdl, "T": (commit_dl(hdl, gdls, rs, rbf) - c * cdl) % Q, "rbf": rbf, "rs": rs}
         check("simulated_same_challenge", sim, hdl, gdls, ctx, must=True)
         check("simulated_other_challenge", sim, hdl, gdls, rng.randbytes(7), must=(False if cdl else True))
+    # a group-element field replaced by a point that is on the curve but outside the prime-order subgroup: whatever the
+    # decoder and the verifier do with it, the proof must not be accepted
+    for fld in ("C", "T"):
+        off = h.call("offsub", grp, rng.randrange(2 ** 31))[0]
+        wire = cp_bytes(off if fld == "C" else pts.g(grp, base["C"]), off if fld == "T" else pts.g(grp, base["T"]), base["rbf"], base["rs"])
+        h.begin()
+        t = h.try_call("cp_verify", grp, n, params, wire, "b", hx(ctx))
+        oc = {"proof": "commitment", "G": grp, "N": n, "kind": "outside_subgroup:" + fld, "impl": t[0] if t else "undecodable", "script": h.end()}
+        run.case(oc)
+        run.count("cp outside_subgroup")
+        run.check_monitor("field_outside_the_group_never_accepted", t is None or t[0] != "1", oc)
 
 
 def request_cases(run, h, pts, batch, rng, key):
@@ -197,6 +208,30 @@ def signature_cases(run, h, pts, batch, rng, key):
         check("key_x2", base, dict(pk, x2=x2), ctx, False)
     # the signature is not a signature on ms (sigma2 off by a multiple of sigma1): pairing relation fails
     check("invalid_signature", dict(base, s2=(a * (s + 1) + a * bf) * r % Q), pk, ctx, False)
+    for fld, g in (("s1", 1), ("s2", 1), ("C", 2), ("T", 2)):
+        off = h.call("offsub", g, rng.randrange(2 ** 31))[0]
+        el = {"s1": pts.g1(base["s1"]), "s2": pts.g1(base["s2"]), "C": pts.g2(base["C"]), "T": pts.g2(base["T"])}
+        el[fld] = off
+        wire = sp_bytes(el["s1"], el["s2"], el["C"], el["T"], base["rbf"], base["rs"])
+        h.begin()
+        t = h.try_call("sp_verify", n, key["pk_hex"], wire, "b", hx(ctx))
+        oc = {"proof": "signature", "N": n, "kind": "outside_subgroup:" + fld, "impl": t[0] if t else "undecodable", "script": h.end()}
+        run.case(oc)
+        run.count("sp outside_subgroup")
+        run.check_monitor("field_outside_the_group_never_accepted", t is None or t[0] != "1", oc)
+    # ... and a signature element PLUS a point of order 3 (a pairing may ignore such a component: the encoding must not decode)
+    small = next((c for c in (h.call("g1_curve_mul", rng.randrange(2 ** 31), hx((Q * 0x396c8c005555e1568c00aaab0000aaab // 3).to_bytes(49, "big")))[0]
+                              for _ in range(6)) if c != "c0" + "00" * 47), None)
+    for fld in (("s1", "s2") if small else ()):
+        el = {"s1": pts.g1(base["s1"]), "s2": pts.g1(base["s2"]), "C": pts.g2(base["C"]), "T": pts.g2(base["T"])}
+        el[fld] = h.call("g1_add_unchecked", el[fld], small)[0]
+        wire = sp_bytes(el["s1"], el["s2"], el["C"], el["T"], base["rbf"], base["rs"])
+        h.begin()
+        t = h.try_call("sp_verify", n, key["pk_hex"], wire, "b", hx(ctx))
+        oc = {"proof": "signature", "N": n, "kind": "plus_point_of_order_3:" + fld, "impl": t[0] if t else "undecodable", "script": h.end()}
+        run.case(oc)
+        run.count("sp plus small-order point")
+        run.check_monitor("field_outside_the_group_never_accepted", t is None or t[0] != "1", oc)
     # a proof that satisfies both relations but whose commitment is to another message than the signed one
     ms2 = list(ms)
     ms2[0] = (ms2[0] + 1) % Q
